@@ -252,7 +252,11 @@ fn run(ctx: &mut Ctx) {
                     judge(ctx, "unknown-function", &format!("{where_} {unk}"), with_expr(pos, &unk, style), nt);
                 }
                 // trailing garbage after a complete expression
-                for g in [" garbage", " 1", " )", " (len .a)", "\u{0b}", "\u{0c}", "\u{a0}", "\u{2028}", "\u{85}", "\u{3000}", " \u{a0}"] {
+                for g in [" garbage", " 1", " )", " (len .a)", "\u{0b}", "\u{0c}", "\u{a0}", "\u{2028}", "\u{85}", "\u{3000}", " \u{a0}", "=junk", " =x", "=))", "=DESC"] {
+                    // what follows `=` is a name in --select, a direction in --sort-by and a value in --set; elsewhere garbage
+                    if g.trim_start().starts_with('=') && (["select", "sort", "setvar", "setmacro"].contains(pos) || (*pos == "group" && STYLES[style].2)) {
+                        continue;
+                    }
                     // blanks that are not the grammar's white space (space, tab, LF, CR) are garbage like any other byte;
                     // --sort-by and --set strip them with the rest of the surrounding white space, so they are tried elsewhere
                     if !g.is_ascii() || g == "\u{0b}" || g == "\u{0c}" {
